@@ -25,7 +25,7 @@ RULE = ('each case = one endpoint, s driven to open / half-closed(local) / half-
         'racing frames delivered and judged; distinct = hash of the schedule')
 MINIMA = {'racing_frames_judged': 30000, 'racing_data_bytes_over_64k_cases': 100, 'racing_header_blocks': 3000,
           'later_messages_header_checked': 3000, 'refused_push_cases': 300, 'after_cleanup_cases': 800, 'pad_flood_cases': 100,
-          'local_stream_limit_saturated_cases': 500, 'racing_informational_blocks': 200}
+          'local_stream_limit_saturated_cases': 500, 'newer_bystander_stream_cases': 500, 'racing_informational_blocks': 200}
 
 
 def n_cases(tier):
@@ -119,6 +119,23 @@ def run_case(idx, rng, tier, rep):
     conn_w[0] = 65535 + sum(f.increment for f in t.frames if f.type == wire.WINDOW_UPDATE and f.stream_id == 0) - \
         sum(len(d) for d in [])  # (DATA debits are tracked explicitly below)
     conn_w[0] = getattr(t.c, 'inbound_flow_control_window', conn_w[0])
+    # ---- a newer stream that stays open (or ends normally) while s is reset and later swept: what is remembered about s must
+    # not be mixed up with its neighbours
+    if mcs is None and rng.random() < 0.4:
+        if e_client:
+            o, r0 = h.e_request(end_stream=rng.random() < 0.5)
+            if not r0.ok:
+                return
+            if rng.random() < 0.3 and deliver(wire.build_headers(o, pblock(RESP), end_stream=True), ('bystander-response', o), racing=False) is None:
+                return
+        else:
+            o = h.peer_next
+            h.peer_next += 2
+            if deliver(wire.build_headers(o, pblock(REQ), end_stream=rng.random() < 0.5), ('bystander-request', o), racing=False) is None:
+                return
+            if rng.random() < 0.3:
+                t.call('send_headers', o, RESP, end_stream=True)
+        rep.count('newer_bystander_stream_cases')
     # ---- the local reset
     r = t.call('reset_stream', s, rng.choice([8, 0, 7]))
     sched.append(('RESET', s, state))
